@@ -135,3 +135,14 @@ theorem Chain.year_le {s e : Int → Int} (c : Chain s e) {y y' a b : Int}
   · omega
 
 end Cctz.Rg
+
+namespace Cctz.Rg
+
+/-- a rule whose start precedes its end and whose end precedes the next start is a chain -/
+theorem chain_of_lt {s e : Int → Int} (h1 : ∀ y, s y < e y) (h2 : ∀ y, e y < s (y + 1)) : Chain s e := by
+  refine ⟨fun y => by have := h1 y; omega, ?_⟩
+  intro y a b ha hb
+  have := h1 y; have := h2 y; have := h1 (y + 1)
+  rcases ha with ha | ha <;> rcases hb with hb | hb <;> omega
+
+end Cctz.Rg
